@@ -356,7 +356,16 @@ func taskRunnerScenario(n, tasks int, immediate, gate bool, panicAt int) vx.Scen
 // ---------- rest/handler.MaxConnsHandler ----------
 
 func maxConnsScenario(n, reqs int, gate bool, panicAt int) vx.Scenario {
+	return maxConnsScenarioKinds(n, reqs, gate, panicAt, nil)
+}
+
+// kinds: request i carries the headers of kinds[i%len(kinds)] — "" plain, "websocket"
+// (Upgrade: websocket), "sse" (Accept: text/event-stream): long-lived connections count like any other.
+func maxConnsScenarioKinds(n, reqs int, gate bool, panicAt int, kinds []string) vx.Scenario {
 	name := fmt.Sprintf("maxconns-n%d-r%d-gate%v-panic%d", n, reqs, gate, panicAt)
+	if len(kinds) > 0 {
+		name += "-" + strings.Join(kinds, "+")
+	}
 	body := func() {
 		s := &st{}
 		vsched.SetUser(s)
@@ -366,7 +375,17 @@ func maxConnsScenario(n, reqs int, gate bool, panicAt int) vx.Scenario {
 		var h http.Handler
 		serve := func(idx int) int {
 			rec := httptest.NewRecorder()
-			h.ServeHTTP(rec, httptest.NewRequest(http.MethodGet, fmt.Sprintf("/%d", idx), nil))
+			req := httptest.NewRequest(http.MethodGet, fmt.Sprintf("/%d", idx), nil)
+			if len(kinds) > 0 {
+				switch kinds[idx%len(kinds)] {
+				case "websocket":
+					req.Header.Set("Upgrade", "websocket")
+					req.Header.Set("Connection", "Upgrade")
+				case "sse":
+					req.Header.Set("Accept", "text/event-stream")
+				}
+			}
+			h.ServeHTTP(rec, req)
 			codes[idx] = rec.Code
 			return rec.Code
 		}
@@ -556,6 +575,7 @@ func main() {
 		sc = append(sc, poolScenario(n, 3, 1, false), poolScenario(n, 2, 2, false), poolScenario(n, 2, 2, true))
 		sc = append(sc, taskRunnerScenario(n, 3, true, true, -1), taskRunnerScenario(n, 3, true, false, 1), taskRunnerScenario(n, 3, false, false, -1), taskRunnerScenario(n, 3, false, false, 0))
 		sc = append(sc, maxConnsScenario(n, 3, true, -1), maxConnsScenario(n, 3, false, 1), maxConnsScenario(n, 3, false, -1))
+		sc = append(sc, maxConnsScenarioKinds(n, 3, true, -1, []string{"websocket", "", "sse"}), maxConnsScenarioKinds(n, 3, true, -1, []string{"sse", "websocket"}))
 		for _, k := range []string{"mr.ForEach", "mr.MapReduce", "fx.Walk", "fx.Parallel"} {
 			sc = append(sc, workersScenario(k, n, 3, -1))
 		}
